@@ -1582,6 +1582,14 @@ callf:
 		return env.Errorf("internal error: function %s returned nil", env.GetFunName(fun))
 	}
 	if r.Type == LError {
+		// Attach the call stack while this function's frame is still on it.
+		// An error built without an environment (lisp.Errorf in the map and
+		// array helpers) carries no stack; eval associates one only after
+		// funCall has returned and its deferred Pop has run, so the function
+		// that raised the error was missing from its own trace.
+		if r.CallStack() == nil {
+			r.SetCallStack(env.Runtime.Stack.Copy())
+		}
 		return r
 	}
 
